@@ -19,14 +19,7 @@ def sig_masked_hidden(f):
     return (f.get("carrier") or {}).get("data") == "masked_hidden"
 
 
-def sig_int_none(f):
-    c = f.get("case") or {}
-    return (f.get("function") == "valid_range_test" and (f.get("carrier") or {}).get("data") == "int64"
-            and (c.get("lo") is None or c.get("hi") is None))
-
-
-SIGNATURES = {"masked_array_with_finite_hidden_data_loses_mask": sig_masked_hidden,
-              "valid_range_int_array_with_missing_bound_raises": sig_int_none}
+SIGNATURES = {"masked_array_with_finite_hidden_data_loses_mask": sig_masked_hidden}
 
 
 def run(ctx):
